@@ -20,6 +20,7 @@ import RasnModel.Driver.C20
 def dispatch (line : String) : String :=
   match Sexp.parseLine line with
   | some (.atom "c04" :: args) => Driver.C04.handle args
+  | some (.atom "c04sound" :: args) => Driver.C04.handleSound args
   | some (.atom "c06" :: args) => Driver.C06.handle args
   | some (.atom "c06set" :: args) => Driver.C06.handleSet args
   | some (.atom "c07" :: args) => Driver.C07.handle args
